@@ -463,6 +463,44 @@ def encodePairs (env : Env) : List (Value × Value) → Except Err Bytes
       .ok (a ++ b ++ c)
 end
 
+/-! ## when the encoder accepts -/
+
+mutual
+/-- the conditions under which `serialize_value` accepts a value (default-codec classes only):
+    64-bit integers, floats inside the float32 range, encodable `str` of at most 2**20 UTF-8
+    bytes, `bytes` of at most 2**20, collections of at most 2**14 elements, 16-bit type ids,
+    enum values that are members - at every depth -/
+def encodable (env : Env) : Value → Bool
+  | .null => true
+  | .bool _ => true
+  | .f32 _ _ _ _ => true
+  | .int i => decide (-9223372036854775808 ≤ i ∧ i < 9223372036854775808)
+  | .f64 b => (roundF32 b).isSome
+  | .str s => validUtf8 s && decide (s.length ≤ MAX_BYTES_LENGTH)
+  | .bytes s => decide (s.length ≤ MAX_BYTES_LENGTH)
+  | .seq xs => decide (xs.length ≤ MAX_ARRAY_LENGTH) && encodableList env xs
+  | .set xs => decide (xs.length ≤ MAX_ARRAY_LENGTH) && encodableList env xs
+  | .map kvs => decide (kvs.length ≤ MAX_ARRAY_LENGTH) && encodablePairs env kvs
+  | .object tid fs =>
+      decide (tid < 65536) && decide ((fs.length : Int) < 9223372036854775808) && encodableList env fs
+  | .enum tid v =>
+      decide (tid < 65536) && (match lookup env.reg tid with
+        | some (.enum members) => (match memberOf v members with
+            | .ok true => true
+            | _ => false)
+        | _ => false) && encodable env v
+  | .clientHello _ _ _ => false
+  | .serverHello _ _ _ _ _ => false
+  | .unsupported => false
+def encodableList (env : Env) : List Value → Bool
+  | [] => true
+  | x :: t => encodable env x && encodableList env t
+def encodablePairs (env : Env) : List (Value × Value) → Bool
+  | [] => true
+  | (k, v) :: t => encodable env k && encodable env v && encodablePairs env t
+end
+
+
 /-- type ids of `deserialize_types` (the effective dict: 11 is float32, not uint64) -/
 def isBase (tid : Nat) : Bool :=
   tid = 1 ∨ (3 ≤ tid ∧ tid ≤ 6) ∨ (8 ≤ tid ∧ tid ≤ 18)
